@@ -272,18 +272,29 @@ Fixpoint find_named (nm : Z) (l : list track) : option track :=
               end
   end.
 
+Fixpoint put_named (nm : Z) (t' : track) (l : list track) : list track :=
+  match l with
+  | [] => []
+  | t :: r => match t_name t with
+              | Some n => if n =? nm then t' :: r else t :: put_named nm t' r
+              | None => t :: put_named nm t' r
+              end
+  end.
+
 (* every operation except OTick; used both for calls made between ticks and for calls made by callbacks *)
 Definition exec_op (cfg : config) (tl : timeline) (o : op) : timeline * opres :=
   match o with
   | OTick => (tl, ROk)
   | OSchedule s q d count rwd name replace =>
       let existing := match name with
-                      | Some nm => if replace then find_named nm (tracks tl) else None
+                      | Some nm => if replace then
+                                     match find_named nm (tracks tl) with Some tr => Some (nm, tr) | None => None end
+                                   else None
                       | None => None end in
       match existing with
-      | Some tr =>
+      | Some (nm, tr) =>
           let '(tl1, tr1) := track_update cfg tl tr s q d count in
-          (upd_track tl1 (set_muted (set_count tr1 0) false), ROk)
+          (set_tracks tl1 (put_named nm (set_muted (set_count tr1 0) false) (tracks tl1)), ROk)
       | None =>
           if negb (max_tracks cfg =? 0) && (max_tracks cfg <=? Z.of_nat (length (tracks tl))) then (tl, RTrackLimit)
           else
